@@ -11,8 +11,8 @@ echo "== tests with change"; go test -count=1 ./... 2>&1 | grep -v "^---\|^    \
 run_demo() {
   go build -o $W/borno . || return
   if [ -f demo.bn ]; then
-    if [ -f demo.stdin ]; then ./borno demo.bn < demo.stdin > $1 2>$1.err; else ./borno demo.bn > $1 2>$1.err < /dev/null; fi; echo "status=$?" >> $1
-  elif [ -f demo.stdin ]; then ./borno < demo.stdin > $1 2>&1; echo "status=$?" >> $1
+    if [ -f demo.stdin ]; then timeout 60 ./borno demo.bn < demo.stdin > $1 2>$1.err; else timeout 60 ./borno demo.bn > $1 2>$1.err < /dev/null; fi; echo "status=$?" >> $1
+  elif [ -f demo.stdin ]; then timeout 60 ./borno < demo.stdin > $1 2>&1; echo "status=$?" >> $1
   fi
   for t in $(ls */demo_test.go demo_test.go 2>/dev/null); do go test -count=1 -run Demo ./$(dirname $t) > $1.gotest 2>&1; echo "gotest rc=$?" >> $1; done
 }
